@@ -27,7 +27,7 @@ func init() {
 		{"the backend: a scripted ociregistry.Funcs that fails the carrier method with the generated error", "net/http transport/server: simnet"}}
 	core.Rules["C07"] = "one evaluation = one generated error (standard / custom code, wrapped with %w or an HTTP-status wrapper, message possibly beginning with a code or status prefix, JSON detail) carried by one Interface method through 1, 2 and 3 hops; distinct = distinct (base, code, wrapper, status, message class, detail class, carrier) tuple; non-trivial = the carrier reached the backend"
 	core.Assumptions["C07"] = []string{
-		"an HTTP-status wrapper with status 416 around an error whose code has its own status is not generated: the wrapper's errors.Is(ErrRangeInvalid) answer is tied to a status the wire format deliberately replaces by the code's status",
+		"status 401 is not used in status wrappers: a 401 is an authentication conversation (C10/C11), not an error report",
 	}
 	register(&core.Scenario{Name: "c07-error-carriers", Property: "C07", Weight: 1, Run: c07})
 }
@@ -71,9 +71,8 @@ func c07(env *core.Env) {
 	orig := base
 	wrapper := []string{"none", "prefix-%w", "suffix-%w", "http", "http-over-%w", "%w-over-http"}[c.Int("wrapper", 6)]
 	status := 400 + c.Int("status", 200)
-	_, hasTableStatus := codeStatus[code]
-	if status == 416 && hasTableStatus {
-		status = 418
+	if c.Bool("status.416", 1, 12) {
+		status = 416 // the one status with an errors.Is meaning of its own
 	}
 	if status == 401 {
 		status = 402 // 401 is an authentication conversation, not an error report (C10/C11)
